@@ -249,6 +249,32 @@ def predicate(ctx, optic, case, vals, rays):
                 break
     except Exception:
         ctx.count('linearity_error')
+        return
+    # the same through the public route: ParaxialRays built from the caller's NumPy arrays (the position array is
+    # shared between the two bundles) and SurfaceGroup.trace
+    try:
+        from optiland.rays import ParaxialRays
+        sg = optic.surface_group
+        zarr = np.array([z0, z0])
+        warr = np.array([w, w])
+        yA, uA = np.array([1.0, 0.0]), np.array([0.0, 1.0])
+        sg.trace(ParaxialRays(yA, uA, zarr, warr))
+        YA, UA = np.array(sg.y, dtype=float).copy(), np.array(sg.u, dtype=float).copy()
+        yB, uB = np.array([a, 2.0]), np.array([b, 0.5])
+        sg.trace(ParaxialRays(yB, uB, zarr, warr))
+        YB, UB = np.array(sg.y, dtype=float).copy(), np.array(sg.u, dtype=float).copy()
+        for k in range(YA.shape[0]):
+            for col, (ca, cb) in enumerate(((a, b), (2.0, 0.5))):
+                ey, eu = ca * YA[k, 0] + cb * YA[k, 1], ca * UA[k, 0] + cb * UA[k, 1]
+                if not (rel_ok(float(YB[k, col]), float(ey), 1e-9, 1e-9) and
+                        rel_ok(float(UB[k, col]), float(eu), 1e-9, 1e-9)):
+                    ctx.fail('paraxial ray data are linear in launch height and slope (ParaxialRays + '
+                             'SurfaceGroup.trace, bundles sharing their position array)', case,
+                             [float(YB[k, col]), float(UB[k, col])], [float(ey), float(eu)])
+                    return
+        ctx.count('linearity through ParaxialRays checked')
+    except Exception as e:  # noqa
+        ctx.count('linearity_error (ParaxialRays route): ' + type(e).__name__)
 
 
 def cases(ctx):
